@@ -20,6 +20,7 @@ from vf import fm
 from vf.core import Collector, Prop, shard_rng
 
 MIN_LINE = 20
+_TAG_FIRST = re.compile(r"(?:\{%.*?%\}|\{\{.*?\}\}|\{#.*?#\}|<!--.*?-->)\S*")
 _END = re.compile(r"(?:^|[^\w]|_)([^\W\d_]+)([.?!]['\"’”)]?|['\"’”)][.?!])$")
 PLAIN = ["a", "to", "the", "word", "longer", "sentence", "alpha", "beta", "gamma", "delta,", "x", "verylongwordhere",
          "(note", "this)", "and", "or", "naïve", "café", "2024", "3.14", "e.g.", "U.S.", "Mr.", "x.", "OK.", "A.", "it's",
@@ -69,6 +70,8 @@ class C11(Prop):
             ii, si = r.choice(CONTAINERS)
             yield {"kind": "placement", "sentences": S, "width": r.choice([25, 30, 40, 60, 72, 88, 100, r.randint(25, 100)]),
                    "ii": ii, "si": si}
+            if r.random() < 0.35:
+                yield self.doc_case(r)
             j = r.randrange(len(S))
             body = list(S[j][:-1])
             op = r.choice(["ins", "del", "rep"])
@@ -84,8 +87,83 @@ class C11(Prop):
             yield {"kind": "locality", "sentences": S, "edited": S2, "j": j, "width": r.choice([25, 30, 40, 60, 88, r.randint(25, 100)]),
                    "ii": ii, "si": si}
 
+    @staticmethod
+    def doc_case(r):
+        pool = [sentence(r, 14) for _ in range(r.randint(2, 4))]
+        kinds = [("", ""), ("", "")] + r.sample([("- ", "  "), ("> ", "> "), ("1. ", "   "), ("10. ", "    "), ("  - ", "    ")], r.randint(1, 3))
+        r.shuffle(kinds)
+        blocks = []
+        for ii, si in kinds:
+            if ii == "  - ":
+                ii, si, lead_src = "  - ", "    ", "- Outer item here.\n\n"
+            else:
+                lead_src = ""
+            words = []
+            if r.random() < 0.5:
+                words += [r.choice(["Ok.", "Yes.", "No.", "So.", "Well then."])][0].split()
+            for _ in range(r.randint(1, 3)):
+                words += list(r.choice(pool))
+            if r.random() < 0.4 and len(words) > 4:
+                # an inline tag / comment in the middle of the text, never next to a source line break
+                k = r.randint(2, len(words) - 2)
+                words.insert(k, r.choice(["{% x %}", "{{ v }}", "<!-- c -->", "{# n #}"]))
+            top = ii == "" and not lead_src
+            if top and r.random() < 0.4 and len(words) > 5:
+                # a word that looks like a list marker or table row (inside a paragraph it is just a word)
+                words[r.randint(2, len(words) - 2)] = r.choice(["2)", "2019.", "|", "7."])
+            # source layout: soft line breaks at random word gaps (not next to a tag; a marker-like word may start a line
+            # only at top level)
+            src, cur = [], [words[0]]
+            for a, w in zip(words, words[1:]):
+                tagish = lambda x: x[:2] in ("{%", "{{", "{#", "<!") or x[-2:] in ("%}", "}}", "#}", "->")  # noqa: E731
+                markerish = not w[:1].isalpha()
+                if r.random() < 0.2 and not tagish(a) and not tagish(w) and (not markerish or (top and w in ("2)", "2019.", "|", "7."))):
+                    src.append(" ".join(cur))
+                    cur = [w]
+                else:
+                    cur.append(w)
+            src.append(" ".join(cur))
+            pfx_first = ii if not lead_src else "  - "
+            text = lead_src + "\n".join((pfx_first if i == 0 else si) + ln for i, ln in enumerate(src))
+            blocks.append({"ii": ii, "si": si, "words": words, "src": text, "lead": bool(lead_src)})
+        return {"kind": "docplacement", "blocks": blocks, "width": r.choice([30, 40, 60, 72, 88, r.randint(25, 100)])}
+
     def check(self, case, col: Collector):
         getattr(self, "_check_" + case["kind"])(case, col)
+
+    # -------------------------------------------------------------------------------- whole documents
+    def _check_docplacement(self, case, col):
+        """Several paragraphs in different containers in ONE document (one wrapper instance serves them all), sentences
+        repeated between them, multi-line sources, inline tags that are never next to a source newline."""
+        width = case["width"]
+        text = "\n\n".join(b["src"] for b in case["blocks"]) + "\n"
+        out = fm.fmt(text, width=width, semantic=True)
+        if not isinstance(out, str):
+            col.count("raised_cases_left_to_C12")
+            return
+        paras = [p for p in re.split(r"\n(?:[ >]*\n)+", out.rstrip("\n")) if p.strip(" >\n")]
+        expected = [x for b in case["blocks"] for x in ([None, b] if b.get("lead") else [b])]  # None: the outer item's own paragraph
+        if len(paras) != len(expected):
+            col.count("docplacement_skipped_block_count_differs")
+            return
+        for b, ptxt in zip(expected, paras):
+            if b is None:
+                continue
+            col.case()
+            col.mon("placement")
+            ii, si = b["ii"], b["si"]
+            lines = ptxt.split("\n")
+            if not lines[0].startswith(ii) or not all(ln.startswith(si) for ln in lines[1:]):
+                col.count("docplacement_skipped_prefix_differs")
+                continue
+            body = [lines[0][len(ii):]] + [ln[len(si):] for ln in lines[1:]]
+            if " ".join(body).replace("\\", "").split() != " ".join(b["words"]).replace("\\", "").split():
+                col.count("placement_skipped_text_not_reproduced")
+                continue
+            if len(body) >= 2:
+                col.distinct("docplacement", ptxt, width)
+            col.count("docplacement_paragraphs_judged")
+            self.judge_body(body, width, ii, si, dict(case, via="reformat_text/document", block=b["src"][:80]), col)
 
     # --------------------------------------------------------------------------------
     def run_both(self, words, width, ii, si):
@@ -118,6 +196,13 @@ class C11(Prop):
             if len(body) >= 2:
                 col.distinct("placement", via, " ".join(words), width, ii)
             col.hist("width", width // 20 * 20)
+            self.judge_body(body, width, ii, si, dict(case, via=via), col)
+
+    def judge_body(self, body, width, ii, si, sub, col, kept_breaks=()):
+        """Clauses (a) and (b) on the lines of one output paragraph (indents already removed). kept_breaks: indices i such that the
+        break after line i is one the statement exempts (tag-adjacent newline / hard break)."""
+        if True:
+            case = sub
             for i, ln in enumerate(body):
                 ws = ln.split(" ")
                 ind = len(ii) if i == 0 else len(si)
@@ -126,12 +211,15 @@ class C11(Prop):
                 for k, w in enumerate(ws[:-1]):
                     acc += len(w) + (1 if k else 0)
                     if is_sentence_end(w) and acc >= MIN_LINE:
-                        col.violation("placement", "C11/placement/sentence-end-not-followed-by-break", dict(case, via=via),
+                        col.violation("placement", "C11/placement/sentence-end-not-followed-by-break", sub,
                                       {"line": ln, "word": w, "chars_so_far": acc})
                         break
                 # (a) break after line i: sentence end or forced
-                if i < len(body) - 1:
+                if i < len(body) - 1 and i not in kept_breaks:
                     nxt = body[i + 1].split(" ")[0]
+                    mt = _TAG_FIRST.match(body[i + 1])
+                    if mt:
+                        nxt = mt.group(0)  # a template tag / comment is one unbreakable word
                     if is_sentence_end(ws[-1]):
                         continue
                     if ind + len(ln) + 1 + len(nxt.lstrip("\\")) > width:
@@ -144,7 +232,7 @@ class C11(Prop):
                     if i >= 1 and len(body[i - 1]) < MIN_LINE and is_sentence_end(body[i - 1].split(" ")[-1]) \
                             and len(body[i - 1]) + len(ln) == width - (len(ii) if i - 1 == 0 else len(si)):
                         desc = "C11/placement/unforced-break/first-line-after-failed-short-line-merge"
-                    col.violation("placement", desc, dict(case, via=via), {"line": ln, "next_word": nxt, "width": width, "indent": ind,
+                    col.violation("placement", desc, sub, {"line": ln, "next_word": nxt, "width": width, "indent": ind,
                                                                             "prev_line": body[i - 1] if i else None})
                     break
 
